@@ -31,24 +31,22 @@ theorem hexDigitsUpper_hex (n : Nat) : ∀ x ∈ hexDigitsUpper n, hexChar x = t
   · intro x hx; simp at hx; subst hx; decide
   · exact hexDigitsUpper_go_hex _ _ _ (by simp)
 
-theorem integerToHex_hex (c : UInt8) (raw : Nat) : ∀ x ∈ integerToHex c raw, hexChar x = true := by
+theorem integerToHex_hex (c : UInt8) (raw : Nat) (hc : c ≠ 121) : ∀ x ∈ integerToHex c raw, hexChar x = true := by
   unfold integerToHex
   split
   · simp
-  · split
-    · split <;> (intro x hx; simp at hx; subst hx; decide)
+  · simp only [hc, if_false]
+    split
+    · simp
     · split
-      · simp
-      · dsimp only
-        split
-        · intro x hx
-          rcases List.mem_cons.1 hx with rfl | hx
-          · decide
-          · exact hexDigitsUpper_hex _ x hx
-        · exact hexDigitsUpper_hex _
+      · intro x hx
+        rcases List.mem_cons.1 hx with rfl | hx
+        · decide
+        · exact hexDigitsUpper_hex _ x hx
+      · exact hexDigitsUpper_hex _
 
-theorem integerToHex_plain (c : UInt8) (raw : Nat) : Plain (integerToHex c raw) :=
-  fun x hx => hexChar_charOk (integerToHex_hex c raw x hx)
+theorem integerToHex_plain (c : UInt8) (raw : Nat) (hc : c ≠ 121) : Plain (integerToHex c raw) :=
+  fun x hx => hexChar_charOk (integerToHex_hex c raw hc x hx)
 
 /-! ### `find` -/
 
